@@ -76,6 +76,49 @@ def run(ctx):
             ctx.counterexample("crc16-not-kermit", dict(data=hx(d)), s16, "%04x" % z16,
                                "CRC16(data).digest() differs from CRC-16/KERMIT (bit-serial catalogue definition)")
     _detect(ctx)
+    _detect_rx(ctx)
+
+
+def _detect_rx(ctx):
+    """Bursts in the bodies of every kind of frame the receiver accepts (single, first, continuation and last
+    fragments), replayed on the real `ZbossNcpProtocol.data_received`: the damaged frame is neither acknowledged
+    nor delivered (oracle for what else a resynchronisation may find: the Lean receiver model)."""
+    import rxworld
+    import streams
+    r = ctx.rng
+    jobs = []
+    for _ in range(ctx.scale(6, 60)):
+        wires = streams.fragments_wire(r, r.choice([250, 300, 500, 600, 760]))
+        victim = r.randrange(len(wires))
+        for _ in range(ctx.scale(12, 60)):
+            raw = wires[victim]
+            nbits = (len(raw) - 7) * 8
+            ln = min(r.randrange(1, 17), nbits)
+            start = r.choice([0, 8, 16, nbits - ln, r.randrange(0, nbits - ln + 1)])
+            pat = [1] + [r.getrandbits(1) for _ in range(ln - 2)] + ([1] if ln > 1 else [])
+            b = bytearray(raw)
+            for k, bit in enumerate(pat):
+                if bit:
+                    pos = 7 * 8 + start + k
+                    b[pos // 8] ^= 1 << (pos % 8)
+            chunks = wires[:victim] + [bytes(b)]
+            jobs.append((chunks, victim, len(wires), start, pat))
+    ans = ctx.driver.ask([rxworld.rx_line(c) for c, *_ in jobs]) if ctx.driver else None
+    for k, (chunks, victim, n, start, pat) in enumerate(jobs):
+        outs, final, raised = rxworld.session(chunks)
+        kind = "first" if victim == 0 else "last" if victim == n - 1 else "continuation"
+        ctx.case(("rxburst", chunks[-1]), sample=dict(fragment=kind, start_bit=start, pattern=pat, receiver_output=outs[-1]))
+        ctx.count("rx-burst-" + kind)
+        impl = " ".join(outs) + " | " + final
+        if ans is not None and ans[k] == impl:
+            continue            # the model reproduces the receiver byte for byte (including any resynchronisation)
+        if outs[-1] != ".":
+            ctx.counterexample("body-burst-accepted-by-receiver",
+                               dict(chunks=[hx(c) for c in chunks], fragment=kind, start_bit=start, pattern=pat),
+                               "the damaged %s fragment is neither acknowledged nor delivered" % kind, outs[-1],
+                               "an error burst of <= 16 bits in the body of a %s fragment is accepted by the receiver" % kind)
+        elif ans is not None:
+            ctx.mismatch("rx-burst", dict(chunks=[hx(c) for c in chunks]), ans[k], impl)
 
 
 def _frame_bytes(r, n):
